@@ -22,8 +22,9 @@ pub enum Policy {
     PassEarly,
     Rotator,
     Shuttler,
+    Repeater,
 }
-pub const POLICIES: [Policy; 9] = [Policy::Uniform, Policy::PassHappy, Policy::Shuffler, Policy::Pusher, Policy::TrapSeeker, Policy::RabbitRunner, Policy::PassEarly, Policy::Rotator, Policy::Shuttler];
+pub const POLICIES: [Policy; 10] = [Policy::Uniform, Policy::PassHappy, Policy::Shuffler, Policy::Pusher, Policy::TrapSeeker, Policy::RabbitRunner, Policy::PassEarly, Policy::Rotator, Policy::Shuttler, Policy::Repeater];
 
 #[derive(Clone, Copy, PartialEq, Eq, Debug)]
 pub enum SetupPolicy {
@@ -37,7 +38,7 @@ pub enum SetupPolicy {
 #[derive(Clone, Debug)]
 pub struct Mix {
     pub families: [u32; 13],
-    pub policies: [u32; 9],
+    pub policies: [u32; 10],
     pub caps: &'static [usize],
     pub fan: &'static [f64],
     pub fan2: &'static [f64],
@@ -106,12 +107,18 @@ pub struct RandomSource {
     recent: Vec<[u8; 64]>,
     /// Shuttler: steps per turn before passing (1..=3), fixed per run
     shuttle_k: usize,
+    /// Repeater: per side, the own steps of the previous own turn, of the current one, and the
+    /// script (the previous turn undone) still to be played this turn
+    rep_last: [Vec<(Sq, Dir)>; 2],
+    rep_cur: [Vec<(Sq, Dir)>; 2],
+    rep_script: [Vec<Act>; 2],
+    rep_len: usize,
 }
 impl RandomSource {
     pub fn new(rng: Rng, sw: Swarm) -> Self {
         let mut rng = rng;
         let shuttle_k = 1 + rng.below(3);
-        RandomSource { rng, sw, steps: 0, recent: vec![], shuttle_k }
+        RandomSource { rng, sw, steps: 0, recent: vec![], shuttle_k, rep_last: [vec![], vec![]], rep_cur: [vec![], vec![]], rep_script: [vec![], vec![]], rep_len: 1 }
     }
     fn choose(&mut self, w: &World, info: &StateInfo) -> usize {
         let n = info.offered.len();
@@ -209,6 +216,63 @@ impl RandomSource {
                 } else {
                     uniform
                 }
+            }
+            Policy::Repeater => {
+                // every second own turn undoes the previous one step by step, so that both sides
+                // shuttle through multi-step turns and positions recur with every turn shape
+                let si = side as usize;
+                let opposite = |d: Dir| match d {
+                    Dir::N => Dir::S,
+                    Dir::S => Dir::N,
+                    Dir::E => Dir::W,
+                    Dir::W => Dir::E,
+                };
+                if w.m.steps_made() == 0 {
+                    self.rep_last[si] = std::mem::take(&mut self.rep_cur[si]);
+                    self.rep_script[si] = self.rep_last[si].iter().rev().filter_map(|(q, d)| q.step(*d).map(|t| Act::Step(t, opposite(*d)))).collect();
+                    self.rep_len = 1 + (r1 % 3) as usize;
+                }
+                let find = |a: Act| acts.iter().position(|x| *x == Some(a));
+                let pick = if let Some(next) = self.rep_script[si].first().copied() {
+                    match find(next) {
+                        Some(i) => {
+                            self.rep_script[si].remove(0);
+                            Some(i)
+                        }
+                        None => {
+                            self.rep_script[si].clear();
+                            None
+                        }
+                    }
+                } else {
+                    None
+                };
+                let undoing = !self.rep_last[si].is_empty();
+                let i = match pick {
+                    Some(i) => i,
+                    None => {
+                        // the script is finished (or there was none): pass when the turn is long enough
+                        let want_len = if undoing { self.rep_last[si].len() } else { self.rep_len };
+                        if w.m.steps_made() >= want_len.max(1) {
+                            if let Some(p) = pass_idx {
+                                return p;
+                            }
+                        }
+                        // a random own-piece step (no displacements: they cannot be undone)
+                        let own: Vec<usize> = (0..n).filter(|i| matches!(acts[*i], Some(Act::Step(q, _)) if matches!(w.m.board[q.0 as usize], Some((s, _)) if s == side))).collect();
+                        if own.is_empty() { uniform } else { pick_from(&own, r2) }
+                    }
+                };
+                if let Some(Act::Step(q, d)) = acts[i] {
+                    if matches!(w.m.board[q.0 as usize], Some((s, _)) if s == side) {
+                        self.rep_cur[si].push((q, d));
+                    } else {
+                        // an enemy displacement cannot be undone: forget the turn
+                        self.rep_cur[si].clear();
+                        self.rep_script[si].clear();
+                    }
+                }
+                i
             }
             Policy::Rotator => {
                 // turns whose steps permute the pieces: move into a square that was occupied at the
